@@ -108,6 +108,8 @@ Fixpoint steps1 (f : list Z) : bool :=
   | a :: ((b :: _) as r) => (b - a =? 1) && steps1 r
   | _ => true
   end.
+(** len(f) == 0 or f[0] == 0 *)
+Definition starts0 (f : list Z) : bool := match f with [] => true | a :: _ => a =? 0 end.
 Definition zlist_eqb := list_eqb Z.eqb.
 Definition len_is {A} (n : Z) (o : option (list A)) : bool :=
   match o with Some l => Z.of_nat (List.length l) =? n | None => true end.
@@ -119,12 +121,12 @@ Definition rows3 (g : list Q) : outcome Z :=
     With throw_reorder the arrays themselves come back in the order given (or the call raises). *)
 Definition contiguize (frags : list (list Z)) (ms : schema_mol) (geom : list Q) (elem : list string) : outcome (list Z) :=
   match frags with
-  | [] => Err PyIndexError                                   (* vsplt[-1] of an empty cumsum *)
+  | [] => Err Validation                                     (* `if len(frag_pattern) == 0: raise ValidationError` (361a5b1) *)
   | f0 :: _ =>
       let vsplt := cumsum_z 0 (lens frags) in
       let nat := last vsplt 0 in
       let seps := removelast vsplt in
-      if is_nil seps && steps1 f0 then
+      if is_nil seps && steps1 f0 && starts0 f0 then       (* one fragment, a run of consecutive indices from atom 0 (2b49794) *)
         obind (rows3 geom) (fun rows => if rows =? nat then Ok seps else Err Validation)
       else if negb (zlist_eqb (List.concat frags) (arange (Z.to_nat nat))) then Err Validation   (* skips atoms / would reorder *)
       else obind (rows3 geom) (fun rows =>
